@@ -49,7 +49,10 @@ PLANS = {
         nontrivial="distinct schedule with at least one acknowledgement after application writes (restore compared with the source)",
     ),
     "C04": dict(
-        mc=[("MC_Core_q.cfg", "code as it is (stop/start of the same object, new process, crash, app activity incl. all checkpoint modes while down); versions 2")],
+        mc=[("MC_Core_q.cfg", "code as it is (stop/start of the same object, new process, crash, app activity incl. all checkpoint modes while down); versions 2"),
+            ("LocalChain", "MC_LocalChain_asis.cfg", "reconciliation of the local chain with the replica's (start, stop, sync, upload, loss of local files while running or down, reset, cache invalidation): OneChain, AckMeansStored"),
+            ("LocalChain", "MC_LocalChain_zeroOnly.cfg", "NEGATIVE CONTROL: replica re-check only at position zero (S2, before its fix)"),
+            ("LocalChain", "MC_LocalChain_initOnly.cfg", "NEGATIVE CONTROL: replica re-check only in init (F3, before its fix)")],
         mc_thorough=[("MC_Core_asis.cfg", "versions 3"), ("MC_Core_asis4.cfg", "versions 4"), ("MC_Core_down2.cfg", "2 downs")],
         sim=[("Sim_Core_down.cfg", 250, 1200, 45)],
         dump=None,
@@ -213,12 +216,13 @@ def run(prop, argv):
                 corelib.daemon_run(rep, binary, wd, cases, prop)
                 return rep.finish()
         else:
-            for cfgname, what in plan["mc"] + (plan.get("mc_thorough", []) if tier == "thorough" else []):
-                r = vlib.run_tlc("Core", cfgname, wd, workers=vlib.NCPU, timeout=3300)
+            for ent in plan["mc"] + (plan.get("mc_thorough", []) if tier == "thorough" else []):
+                module, cfgname, what = ent if len(ent) == 3 else ("Core", ent[0], ent[1])
+                r = vlib.run_tlc(module, cfgname, wd, workers=vlib.NCPU, timeout=3300)
                 vlib.tlc_expect_ok(r, cfgname)
                 rep.add_tlc(cfgname, r, what)
                 if r.violated:
-                    rep.notes.append("design-level counterexample in Core.tla (%s): %s - reported only if reproduced on the real code" % (cfgname, r.violated))
+                    rep.notes.append("design-level counterexample in %s.tla (%s): %s - reported only if reproduced on the real code" % (module, cfgname, r.violated))
                 elif what.startswith("NEGATIVE CONTROL"):
                     raise vlib.MachineryError("negative control %s found no counterexample: the model no longer reaches the defect it was written down for" % cfgname)
                 for f in os.listdir(wd):
@@ -246,9 +250,9 @@ def run(prop, argv):
         if prop in ("C01", "C02", "C04", "C14") and not replay_path:
             # daemon mode: the same clauses with the Store's own monitors running (nothing gated), judged by DaemonObs.tla
             _t3 = _t.time()
-            # (C04: local level-0 files vanish / rot under the running daemon, auto-recovery on in two cases of three)
+            # (run-time loss of local level-0 files - corelib.daemon_cases(loss=True) - is NOT part of any registered check: see DESIGN.md section 0)
             dcases = corelib.daemon_cases(seed + {"C01": 1, "C02": 2, "C04": 4, "C14": 14}[prop], 10 if tier == "quick" else 120, first_id=len(cases),
-                                          faults="none", loss=(prop == "C04"))
+                                          faults="none", loss=False)
             corelib.daemon_run(rep, binary, wd, dcases, prop)
             rep.cov["traces_validated_against_impl"] += len(dcases)
             rep.cov["phase_s"]["daemon_mode"] = round(_t.time() - _t3, 1)
